@@ -26,6 +26,7 @@ def qpi (s : Stack) : List (Nat × Out) × List (Dest × List SDEntry) × List C
 @[simp] theorem qpi_with_storeLog (s : Stack) (x : List (Bool × SvcKey × Addr)) : qpi { s with storeLog := x } = qpi s := rfl
 @[simp] theorem qpi_with_sendLog (s : Stack) (x : List (Dest × (Bool × Nat))) : qpi { s with sendLog := x } = qpi s := rfl
 @[simp] theorem qpi_with_subLog (s : Stack) (x : List (Addr × Nat × List Eventgroup)) : qpi { s with subLog := x } = qpi s := rfl
+@[simp] theorem qpi_with_findLog (s : Stack) (x : List (Nat × Nat)) : qpi { s with findLog := x } = qpi s := rfl
 @[simp] theorem qpi_with_subDup (s : Stack) (x : Bool) : qpi { s with subDup := x } = qpi s := rfl
 @[simp] theorem qpi_with_subLost (s : Stack) (x : Bool) : qpi { s with subLost := x } = qpi s := rfl
 @[simp] theorem qpi_with_alive_subLost (s : Stack) (x y : Bool) : qpi { s with alive := x, subLost := y } = qpi s := rfl
